@@ -209,6 +209,7 @@ def decide(R, proved, model_ok, disagreements, failures):
 
 def cli_scenarios(R, g, n):
     fails = []
+    succeeded = 0
     for i in range(n):
         a, b2 = g.term_pair()
         search = gen.render(a, "Snake")
@@ -234,6 +235,7 @@ def cli_scenarios(R, g, n):
                               "replace": replace, "rc": [rc1, rc2a, rc2], "stderr": e2.decode("utf-8", "replace")[-500:],
                               "diff": repr(cli.diff_snap(t1, t2))[:1500]})
                 continue
+            succeeded += rc1 == 0
             if rc1 == 0:
                 # the stored copy must be loadable: undo then redo
                 rcu, ou, eu = s1.run(["--no-auto-init", "-y", "undo", "latest"])
@@ -242,6 +244,9 @@ def cli_scenarios(R, g, n):
                 if "missing field" in msg or "Failed to parse" in msg or "parse plan" in msg.lower():
                     fails.append({"scenario": "stored plan copy unreadable", "tree": cli.tree_json(tree),
                                   "search": search, "replace": replace, "rc": [rc1, rcu, rcr], "stderr": msg[-800:]})
+    if succeeded == 0:
+        fails.append({"scenario": "no CLI scenario succeeded (the CLI runs are vacuous)", "n": n})
+    R.coverage["cli_scenarios_succeeded"] = succeeded
     return fails
 
 
